@@ -522,6 +522,82 @@ pub fn check(prop: &str, tier: &str) -> i32 {
         rep.transitions += done;
         rep.set("module_table_entries_through_GLOBAL_and_INST", json!({"entries": n, "generations": done}));
     }
+    // text payloads: every string of length <= 4 over {\\ u U ' " a 0 x} through every string-carrying opcode of every
+    // protocol (escaping rules of STRING / UNICODE depend on combinations of adjacent characters)
+    if matches!(prop, "C01" | "C04" | "C05") {
+        use rayon::prelude::*;
+        let alpha: Vec<u8> = [b'\\', b'u', b'U', b'\'', b'"', b'a', b'0', b'x']
+            .iter()
+            .map(|c| crate::script::ASCII_CHARS.iter().position(|x| x == c).unwrap_or(0) as u8)
+            .collect();
+        let maxlen = if tier == "quick" { 4 } else { 5 };
+        let mut payloads: Vec<Vec<u8>> = vec![vec![]];
+        let mut lvl: Vec<Vec<u8>> = vec![vec![]];
+        for _ in 0..maxlen {
+            let mut next = vec![];
+            for s in &lvl {
+                for a in &alpha {
+                    let mut t = s.clone();
+                    t.push(*a);
+                    next.push(t);
+                }
+            }
+            payloads.extend(next.iter().cloned());
+            lvl = next;
+        }
+        let noop = |_: &RunCtx| -> Vec<Finding> { vec![] };
+        let mut runs = 0u64;
+        for p in (0..=5u8).rev() {
+            let ops: Vec<u8> = match p {
+                0 => vec![b'S', b'V'],
+                1..=3 => vec![b'S', b'V', b'X'],
+                _ => vec![b'S', b'V', b'X', 0x8c, 0x8d],
+            };
+            let cfg = Cfg::new(p);
+            let ex = Explorer { base_cfg: cfg.clone(), opts: Opts::default(), monitor: &noop, xval_full: Default::default(), choice_discovery: Default::default() };
+            for op in ops {
+                let Ok(base) = crate::explore::scenario(&ex, false, &[vec![op]]) else {
+                    rep.machinery.push(format!("text payloads: cannot steer to {} in protocol {p}", lexer::name(op)));
+                    continue;
+                };
+                // the value draws follow the choice bytes: [length byte][one index byte per character]
+                let (_c, _r, tr) = ex.run(&base.script, 1);
+                let choice_end = tr.steps.last().map(|st| st.draws.iter().filter(|d| d.is_choice).map(|d| d.off + d.width).max().unwrap_or(0)).unwrap_or(0);
+                let bad: Vec<(Vec<u8>, Finding)> = payloads
+                    .par_iter()
+                    .flat_map_iter(|pl| {
+                        let mut s = base.script[..choice_end.min(base.script.len())].to_vec();
+                        s.resize(choice_end, 0);
+                        s.push(pl.len() as u8);
+                        s.extend_from_slice(pl);
+                        let mut c = cfg.clone();
+                        c.min = 1;
+                        c.max = 1;
+                        let r = crate::run::run_bytes(&c, &s, true, false);
+                        let trx = trace::parse(&r.events, s.len(), false);
+                        let fs = match r.bytes() {
+                            Some(b) => {
+                                let (ops, m) = analyse(b);
+                                let ctx = RunCtx { cfg: &c, script: &s, res: &r, tr: &trx, ops: &ops, m: m.as_ref() };
+                                mon(&ctx)
+                            }
+                            None => vec![],
+                        };
+                        fs.into_iter().map(move |f| (s.clone(), f)).collect::<Vec<_>>()
+                    })
+                    .collect();
+                runs += payloads.len() as u64;
+                let mut c = cfg.clone();
+                c.min = 1;
+                c.max = 1;
+                for (s, fd) in bad.into_iter().take(4) {
+                    rep.finding_raw(&format!("{}:text-payload", fd.class), &format!("P{p} {}: {}", lexer::name(op), fd.msg), json!({"kind":"bytes","config":c.to_json(),"script_hex":lexer::hex(&s)}));
+                }
+            }
+        }
+        rep.transitions += runs;
+        rep.set("text_payload_generations", json!({"alphabet": "\\ u U ' \" a 0 x", "max_length": maxlen, "generations": runs}));
+    }
     // reuse: the second and third pickle of ONE generator (no reset in between) go through the same oracle
     {
         use rayon::prelude::*;
